@@ -50,7 +50,12 @@ STUBS = ["np.random.choice(pool, size, replace=False): ValueError unless "
          "populate_grid inside downsample_grid: keeps an arbitrary subset of "
          "the valid events that contains the first one",
          "np.log(x): NaN/invalid iff x <= 0 or NaN, else an uninterpreted "
-         "real", "cardinality contracts of ones_like, a[mask], ~, |, where, "
+         "real", "a cast of a symbolic float to float32 / float16 "
+         "(asarray / astype with dtype): overflow to an invalid value from "
+         "the first magnitude that rounds to inf, exactly 0 up to half the "
+         "smallest subnormal, otherwise a value within the relative "
+         "rounding error of the same sign (vf/symnp.py, "
+         "NARROW_FLOAT_CASTS)", "cardinality contracts of ones_like, a[mask], ~, |, where, "
          "sum, mask/index assignment (side conditions are proof "
          "obligations)"]
 ASSUMPTIONS = ["request size 0 means 'no downsampling' (all eligible "
